@@ -13,6 +13,7 @@ EVBAK="$(mktemp -d /tmp/yvev.XXXXXX)"; cp -a "$HERE/evidence/." "$EVBAK/" 2>/dev
 for P in "$@"; do
   START=$(date +%s)
   OUT="$(cd "$HERE" && YV_REPO="$SCR/repo" YV_CACHE="$SCR/cache" ./check "$P" "${TIER:-quick}" 2>&1)"; RC=$?
-  echo "MUTANT $(basename "$PATCH") $P rc=$RC $(( $(date +%s) - START ))s :: $(echo "$OUT" | grep -m1 -E 'bucket=|INCONCLUSIVE|HARNESS' | cut -c1-220)"
+  NAME="$(basename "$PATCH")"; [ "$NAME" = "patch.diff" ] && NAME="$(basename "$(dirname "$PATCH")")"
+  echo "MUTANT $NAME $P rc=$RC $(( $(date +%s) - START ))s :: $(echo "$OUT" | grep -m1 -E 'bucket=|INCONCLUSIVE|HARNESS' | cut -c1-220)"
 done
 cp -a "$EVBAK/." "$HERE/evidence/" 2>/dev/null; rm -rf "$EVBAK" "$SCR"
